@@ -520,6 +520,152 @@ Definition arr_getitem {E} (ix : index) (a : arr E) : res (arr E) :=
                     (List.concat (map (fun i => nth (norm_idx n i) rows []) l)))
       end
   end.
+(* ---- general NumPy/JAX indexing (basic + advanced) ------------------------------------------------
+   x[e1, ..., ek] with entries: integers (negative from the end), slices with any non-zero step,
+   Ellipsis, None/newaxis, integer arrays of any rank, boolean masks of rank >= 1.  In-range integer
+   indices only (JAX clamps out-of-range ones where NumPy raises: outside the property, never
+   generated by the harness); a rank-0 mask is not modelled (Err OtherError, not compared).
+   The semantics: masks become their nonzero() coordinate arrays; Ellipsis / missing trailing entries
+   become full slices; integers are 0-d advanced indices; the advanced indices are broadcast to a
+   common shape B, whose axes stand where the advanced indices stood when these are adjacent and in
+   front otherwise; every result element is the source element at the sum of the per-axis offsets. *)
+Inductive ient :=
+| EInt (i : Z)
+| ESlice (lo hi : option Z) (step : Z)
+| EEllipsis
+| ENew
+| EIArr (sh : list nat) (d : list Z)
+| EMask (sh : list nat) (d : list bool).
+(* after expansion: a slice, a new axis, or an advanced index array (chk: the source axis must have
+   this length - the axis of a mask) *)
+Inductive nent :=
+| NSl (lo hi : option Z) (step : Z)
+| NNew
+| NAdv (sh : list nat) (d : list Z) (chk : option nat).
+(* after assignment to source axes: offsets (position * stride) into the row-major data *)
+Inductive item := TNew | TSl (offs : list nat) | TAdv (sh : list nat) (offs : list nat).
+
+Fixpoint strides (s : list nat) : list nat :=
+  match s with [] => [] | _ :: t => prod t :: strides t end.
+Definition true_positions (d : list bool) : list nat :=
+  map fst (filter snd (combine (seq 0 (List.length d)) d)).
+(* numpy.nonzero(mask): one coordinate list per axis of the mask *)
+Definition mask_coords (sh : list nat) (d : list bool) : list (list nat) :=
+  let ps := true_positions d in
+  map (fun ns => map (fun p => (p / snd ns) mod (fst ns)) ps) (combine sh (strides sh)).
+Definition consumes (e : ient) : nat :=
+  match e with
+  | EInt _ | ESlice _ _ _ | EIArr _ _ => 1
+  | EMask sh _ => List.length sh
+  | EEllipsis | ENew => 0
+  end.
+Definition is_ellipsis (e : ient) : bool := match e with EEllipsis => true | _ => false end.
+Definition full_slice : nent := NSl None None 1%Z.
+Definition expand_ent (fill : nat) (e : ient) : res (list nent) :=
+  match e with
+  | EInt i => Ok [NAdv [] [i] None]
+  | ESlice lo hi st => Ok [NSl lo hi st]
+  | EEllipsis => Ok (repeat full_slice fill)
+  | ENew => Ok [NNew]
+  | EIArr sh d => Ok [NAdv sh d None]
+  | EMask [] _ => Err OtherError
+  | EMask sh d =>
+      if Nat.eqb (List.length d) (prod sh)
+      then Ok (map (fun nc => NAdv [List.length (snd nc)] (map Z.of_nat (snd nc)) (Some (fst nc)))
+                   (combine sh (mask_coords sh d)))
+      else Err OtherError
+  end.
+Definition expand_index (rank : nat) (es : list ient) : res (list nent) :=
+  let n_ell := List.length (filter is_ellipsis es) in
+  let n_c := fold_right (fun e acc => consumes e + acc) 0 es in
+  if Nat.ltb 1 n_ell then Err IndexError
+  else if Nat.ltb rank n_c then Err IndexError
+  else rmap (fun l => List.concat l ++ (if Nat.eqb n_ell 0 then repeat full_slice (rank - n_c) else []))
+            (mapM (expand_ent (rank - n_c)) es).
+
+(* slice(lo, hi, step).indices(n) as the list of selected positions *)
+Definition clampi (n lower upper s : Z) : Z :=
+  if (s <? 0)%Z then Z.max (s + n) lower else Z.min s upper.
+Definition slice_positions (n : nat) (lo hi : option Z) (step : Z) : list nat :=
+  let nz := Z.of_nat n in
+  let neg := (step <? 0)%Z in
+  let lower := if neg then (-1)%Z else 0%Z in
+  let upper := if neg then (nz - 1)%Z else nz in
+  let start := match lo with None => if neg then upper else lower | Some s => clampi nz lower upper s end in
+  let stop := match hi with None => if neg then lower else upper | Some s => clampi nz lower upper s end in
+  let cnt := if neg then ((start - stop + (- step) - 1) / (- step))%Z
+             else ((stop - start + step - 1) / step)%Z in
+  map (fun k => Z.to_nat (start + Z.of_nat k * step)%Z) (seq 0 (Z.to_nat cnt)).
+Definition norm_pos (n : nat) (i : Z) : option nat :=
+  let j := if (i <? 0)%Z then (i + Z.of_nat n)%Z else i in
+  if ((0 <=? j) && (j <? Z.of_nat n))%Z then Some (Z.to_nat j) else None.
+Definition chk_ok (chk : option nat) (n : nat) : bool :=
+  match chk with None => true | Some m => Nat.eqb m n end.
+(* entries meet the source axes (length, stride) from left to right *)
+Fixpoint assign_axes (es : list nent) (axes : list (nat * nat)) : res (list item) :=
+  match es with
+  | [] => Ok []
+  | NNew :: t => rmap (cons TNew) (assign_axes t axes)
+  | NSl lo hi st :: t =>
+      match axes with
+      | [] => Err IndexError
+      | (n, sd) :: ax =>
+          if (st =? 0)%Z then Err ValueError
+          else rmap (cons (TSl (map (fun p => p * sd) (slice_positions n lo hi st)))) (assign_axes t ax)
+      end
+  | NAdv sh d chk :: t =>
+      match axes with
+      | [] => Err IndexError
+      | (n, sd) :: ax =>
+          if negb (chk_ok chk n) then Err IndexError
+          else match all_some (map (norm_pos n) d) with
+               | None => Err OtherError
+               | Some ps => rmap (cons (TAdv sh (map (fun p => p * sd) ps))) (assign_axes t ax)
+               end
+      end
+  end.
+Definition is_adv (it : item) : bool := match it with TAdv _ _ => true | _ => false end.
+Fixpoint take_while {X} (p : X -> bool) (l : list X) : list X :=
+  match l with x :: t => if p x then x :: take_while p t else [] | [] => [] end.
+Fixpoint drop_while {X} (p : X -> bool) (l : list X) : list X :=
+  match l with x :: t => if p x then drop_while p t else l | [] => [] end.
+Definition adv_shape (its : list item) : option (list nat) :=
+  fold_right (fun it acc => match it, acc with
+                            | TAdv sh _, Some b => bshape sh b
+                            | _, _ => acc
+                            end) (Some []) its.
+Definition adv_offsets (b : list nat) (its : list item) : list nat :=
+  fold_right (fun it acc => match it with
+                            | TAdv sh o => map (fun xy => fst xy + snd xy) (combine (broadcast_data sh b o) acc)
+                            | _ => acc
+                            end) (repeat 0 (prod b)) its.
+(* a group of result axes: its shape and the offset contributed at each of its positions *)
+Definition gen_of (it : item) : list (list nat * list nat) :=
+  match it with
+  | TNew => [([1], [0])]
+  | TSl o => [([List.length o], o)]
+  | TAdv _ _ => []
+  end.
+Definition result_gens (its : list item) : res (list (list nat * list nat)) :=
+  match adv_shape its with
+  | None => Err ValueError              (* index arrays that cannot be broadcast together *)
+  | Some b =>
+      let bgen := (b, adv_offsets b its) in
+      let before := take_while (fun it => negb (is_adv it)) its in
+      let after := drop_while is_adv (drop_while (fun it => negb (is_adv it)) its) in
+      if existsb is_adv after
+      then Ok (bgen :: flat_map gen_of its)
+      else Ok (flat_map gen_of before ++ bgen :: flat_map gen_of after)
+  end.
+Definition all_offsets (gens : list (list nat * list nat)) : list nat :=
+  fold_right (fun g acc => flat_map (fun o => map (Nat.add o) acc) (snd g)) [0] gens.
+Definition arr_index {E} (es : list ient) (a : arr E) : res (arr E) :=
+  rbind (expand_index (List.length (ashape a)) es) (fun ns =>
+  rbind (assign_axes ns (combine (ashape a) (strides (ashape a)))) (fun its =>
+  rbind (result_gens its) (fun gens =>
+  Ok (mkArr (flat_map fst gens) (aty a)
+            (flat_map (fun o => firstn 1 (skipn o (adata a))) (all_offsets gens)))))).
+
 Definition arr_ravel {E} (a : arr E) : arr E := mkArr [prod (ashape a)] (aty a) (adata a).
 (* jnp.reshape with at most one -1 *)
 Definition infer_shape (size : nat) (new : list Z) : option (list nat) :=
